@@ -24,7 +24,7 @@ from ..executor import IntV, BoolV, Agg, Opaque, Ref, NotEncoded, UNIT
 from ..models import ok, err, some, none
 from .. import containers as C
 from .c06 import ast_expr, arc, EK
-from .c03 import KINDS, mk_type, strip, kind_of, TY, BT, FILE
+from .c03 import KINDS, BASE_KINDS, mk_type, strip, kind_of, TY, BT, FILE
 
 T, F = z3.BoolVal(True), z3.BoolVal(False)
 TA = 'validator::typecheck::typecheck_answer::TypecheckAnswer'
@@ -42,11 +42,11 @@ def cap_term(ex, st, v):
     raise NotEncoded(f'capability set {v!r}')
 
 
-def control_node(ctx, label, build, nkids, spec, battery, kidkinds=None, extra=None, accept_when=None, why=None, fname='typecheck'):
+def control_node(ctx, label, build, nkids, spec, battery, kidkinds=None, extra=None, accept_when=None, why=None, fname='typecheck', nargs=4, extra_args=None):
     """spec(kinds, okc, CL, PRIOR) -> dict(evaluated=[bool per child: can be evaluated given the guard kinds], capin=[z3 upper bound per child], capout=z3 upper bound,
     values=set of possible boolean value kinds or ('child', i) / ('lub',))"""
     P = ctx.prog('core')
-    f = P.method(FILE, fname, nargs=4)
+    f = P.method(FILE, fname, nargs=nargs)
     ctx.use(f)
     names = {'ExtCmp': Opaque('ast::name::Name', 'a comparable extension type (datetime)'), 'ExtOther': Opaque('ast::name::Name', 'another extension type')}
     kids = [Opaque('ast::expr::Expr', f'child{i}') for i in range(nkids)]
@@ -59,7 +59,7 @@ def control_node(ctx, label, build, nkids, spec, battery, kidkinds=None, extra=N
     OKC = [z3.Bool(f'child{i}_typechecks') for i in range(nkids)]
     CL = [z3.Bool(f'fact_in_capability_of_child{i}') for i in range(nkids)]
     PRIOR, LUB = z3.Bool('fact_in_prior_capability'), z3.Bool('branch_types_have_a_least_upper_bound')
-    kidkinds = kidkinds or [KINDS] * nkids
+    kidkinds = kidkinds or [BASE_KINDS] * nkids
     pre = [z3.Or([k == KINDS.index(kn) for kn in kidkinds[i]]) for i, k in enumerate(K)]
     typed = [[Agg('struct', '~typed', None, [some(mk_type(kn, names)), Opaque('child', f'typed child{i}')]) for kn in KINDS] for i in range(nkids)]
     kidx = {k.id: i for i, k in enumerate(kids)}
@@ -109,7 +109,7 @@ def control_node(ctx, label, build, nkids, spec, battery, kidkinds=None, extra=N
     ex.stub(r'ExprBuilder::<.*>::with_data$', lambda ex_, st, c, A: Agg('struct', '~builder', None, [A[0]]), 'ExprBuilder::with_data(annotation)')
     ex.stub(r'ExprBuilder::<.*>::with_same_source_loc::<', lambda ex_, st, c, A: A[0], 'with_same_source_loc')
     ex.stub(r'ExprBuilder<.*> as (expr_builder::)?ExprBuilder>::(and|or|ite)$|ExprBuilder::<.*>::(and|or|ite)$',
-            lambda ex_, st, c, A: (lambda b: Agg('struct', '~typed', None, [b.fields[0], Opaque('node', 'typed node')]) if isinstance(b, Agg) and b.name == '~builder' else None)(strip(ex_, st, A[0])), 'typed node built with the annotation of the builder')
+            lambda ex_, st, c, A: (lambda b: Agg('struct', '~typed', None, [b.fields[0], Agg('struct', '~kids', None, [strip(ex_, st, a) for a in A[1:] if isinstance(strip(ex_, st, a), Agg) and strip(ex_, st, a).name == '~typed'])]) if isinstance(b, Agg) and b.name == '~builder' else None)(strip(ex_, st, A[0])), 'typed node built with the annotation of the builder')
     ex.stub(r'Expr<.*> as Clone>::clone$', lambda ex_, st, c, A: strip(ex_, st, A[0]), 'clone of a typed expression')
 
     def err_push(ex_, st, c, A):
@@ -131,12 +131,26 @@ def control_node(ctx, label, build, nkids, spec, battery, kidkinds=None, extra=N
     ex.stub(r'(name::)?Name as PartialEq>::(eq|ne)$', lambda ex_, st, c, A: BoolV(z3.BoolVal((gid(ex_, st, A[0]) == gid(ex_, st, A[1])) == c.endswith('::eq'))), 'Name equality (distinct opaque names differ)')
     C.install(ex)
     heap = {'TC': Opaque('validator::typecheck::SingleEnvTypechecker', 'the typechecker'), 'CAP': cap(PRIOR), 'THIS': this, 'ERRS': Opaque('Vec<ValidationError>', 'type errors so far')}
-    outs = ex.run(f, [Ref(0, ('local', 'TC')), Ref(0, ('local', 'CAP')), Ref(0, ('local', 'THIS')), Ref(0, ('local', 'ERRS'))], heap=heap, pre=pre)
+    if extra_args:
+        more = extra_args(kids, heap)
+    else:
+        more = []
+    outs = ex.run(f, [Ref(0, ('local', 'TC')), Ref(0, ('local', 'CAP')), Ref(0, ('local', 'THIS'))] + more + [Ref(0, ('local', 'ERRS'))], heap=heap, pre=pre)
     ctx.absorb(ex)
     nm = f'typing rule of {label}'
     ctx.panic_summary(nm, outs, ex, pre)
     rets = [o for o in outs if o.kind == 'ret']
-    unsound, badin, badout, wrongty, silent, acc, rej = [], [], [], [], [], [], []
+    unsound, badin, badout, wrongty, silent, acc, rej, dropped = [], [], [], [], [], [], [], []
+
+    def tokens(v, st, depth=8):
+        v = strip(ex, st, v)
+        out = set()
+        if isinstance(v, Opaque):
+            out.add(v.what)
+        elif isinstance(v, Agg) and depth > 0:
+            for x in v.fields:
+                out |= tokens(x, st, depth - 1)
+        return out
     for o in rets:
         v = strip(ex, o.st, o.val)
         if not (isinstance(v, Agg) and v.variant in ('TypecheckSuccess', 'TypecheckFail', 'RecursionLimit')):
@@ -156,6 +170,8 @@ def control_node(ctx, label, build, nkids, spec, battery, kidkinds=None, extra=N
             if v.variant == 'TypecheckSuccess':
                 need = [z3.And(OKC[i], z3.BoolVal(kinds[i] in s['kinds_ok'][i])) if i in visited else F for i in range(nkids) if s['evaluated'][i]]
                 unsound.append(z3.And(here, z3.Not(z3.And(need + [s.get('sound_extra', T)]))))
+                if __import__('os').environ.get('C03_DEBUG') and (lambda sv: (sv.add(pre + [unsound[-1]]), sv.check())[1] == z3.sat)(z3.Solver()):
+                    print('UNSOUND', kinds, sorted(visited), [str(x) for x in o.pc][-6:], dict(o.st.notes).get('action_route'))
                 te = strip(ex, o.st, v.fields[0])
                 tyv = strip(ex, o.st, te.fields[0]) if isinstance(te, Agg) and te.name == '~typed' else (strip(ex, o.st, te.fields[2]) if isinstance(te, Agg) and len(te.fields) == 3 else None)
                 if not (isinstance(tyv, Agg) and tyv.variant in ('Some', 'None')):
@@ -169,6 +185,10 @@ def control_node(ctx, label, build, nkids, spec, battery, kidkinds=None, extra=N
                 if 'types' in s and rk not in s['types'] and __import__('os').environ.get('C03_DEBUG'):
                     print('WRONGTY', kinds, rk, s['types'], sorted(visited), [str(x) for x in o.pc if 'least' in str(x) or 'havoc' in str(x)], o.st.notes.get('errors'))
                 badout.append(z3.And(here, cap_term(ex, o.st, v.fields[1]), z3.Not(s['capout'])))
+                # the typed AST handed on (to the level checker, the entity-manifest analysis) contains every child evaluation can reach
+                have = tokens(v.fields[0], o.st)
+                if True:
+                    dropped.append(z3.And(here, z3.BoolVal(any(s['evaluated'][i] and f'typed child{i}' not in have for i in range(nkids)))))
         if v.variant == 'TypecheckSuccess':
             acc.append(pc)
         elif v.variant == 'TypecheckFail':
@@ -184,6 +204,13 @@ def control_node(ctx, label, build, nkids, spec, battery, kidkinds=None, extra=N
     ctx.decide(f'{nm}/capability in: a child is typechecked only under facts that hold whenever it is evaluated', q(badin), ex=ex, on_sat=rep)
     ctx.decide(f'{nm}/capability out: the facts passed on hold whenever the node is true', q(badout), ex=ex, on_sat=rep)
     ctx.decide(f'{nm}/the type of the node contains its values', q(wrongty), ex=ex, on_sat=rep)
+    if dropped:
+        def rep_dropped(m):
+            # the typed AST is what the level checker (C16) and the entity-manifest analysis (C17) walk: a dropped child shows as a policy accepted at too low a level
+            from . import c16
+            r = c16.battery_replay(ctx, nm, f'the typed expression of a {label} node drops an operand that is evaluated')
+            return r if r and r[0] == 'violation' else rep(m)
+        ctx.decide(f'{nm}/the typed expression of an accepted node contains the typed form of every child evaluation can reach', q(dropped), ex=ex, on_sat=rep_dropped)
     ctx.decide(f'{nm}/not silent: a rejection with every typechecked child accepted has reported a type error', q(silent), ex=ex, on_sat=lambda m: battery(ctx, nm, role, 'a policy is rejected without a reported error'))
     ctx.decide(f'{nm}/paths-cover', pre + [z3.Not(z3.Or(acc + rej + [z3.And(o.pc) if o.pc else T for o in rets if strip(ex, o.st, o.val).variant == 'RecursionLimit'] or [F]))], ex=ex)
     ctx.decide(f'{nm}/witness-accepted', pre + [z3.Or(acc or [F])], expect='sat', ex=ex)
@@ -296,7 +323,7 @@ BRANCHK = ['Never', 'True', 'Bool', 'Long']       # kinds of the branches of an 
 def nodes():
     return [('`&&`', lambda k: Agg('variant', EK, 'And', [k[0], k[1]], ('left', 'right')), 2, spec_and, None),
             ('`||`', lambda k: Agg('variant', EK, 'Or', [k[0], k[1]], ('left', 'right')), 2, spec_or, None),
-            ('`if`', lambda k: Agg('variant', EK, 'If', [k[0], k[1], k[2]], ('test_expr', 'then_expr', 'else_expr')), 3, spec_if, [KINDS, BRANCHK, BRANCHK])]
+            ('`if`', lambda k: Agg('variant', EK, 'If', [k[0], k[1], k[2]], ('test_expr', 'then_expr', 'else_expr')), 3, spec_if, [BASE_KINDS, BRANCHK, BRANCHK])]
 
 
 def families(ctx, battery):
